@@ -204,7 +204,7 @@ InstC01(h) ==
               <<Row(nA, <<65, 67, 71, 84>>), Row(nB, <<65, 67, 71, 71>>), Row(nA, <<84, 84, 71, 65>>)>>, \* a repeated name
               <<Row(nA, <<65, 67, 71, 84>>), Row(nB, <<65, 45, 71, 71>>)>>}}
   \cup UNION {
-    {Inst("Add", r, [name |-> n, seq |-> s]) : n \in {nA, nC}, s \in {<<65, 67>>, <<65>>, <<71, 71>>}}
+    {Inst("Add", r, [name |-> n, seq |-> s]) : n \in {nA, nC}, s \in {<<65, 67>>, <<97, 67>>, <<65>>, <<71, 71>>}}   \* aC: the stored row up to case
     \cup {Inst("Rename", r, [map |-> m]) : m \in {<<[f |-> nA, t |-> nZ]>>, <<[f |-> nA, t |-> nB], [f |-> nB, t |-> nA]>>,
                                                  <<[f |-> nA, t |-> nB]>>, <<[f |-> nZ, t |-> nA]>>}}
     \cup {Inst("RenameRegexp", r, [lit |-> nA, repl |-> <<122, 122>>]), Inst("RenameRegexp", r, [lit |-> <<46>>, repl |-> <<>>])}
